@@ -217,9 +217,18 @@ def digest_main(engines_by_prop, prop, tier, seed, first, count):
     return 0
 
 
+_PROBES = []
+
+
 def _spawn_digest(prop, tier, seed, first, count, hashseed):
     env = dict(os.environ)
     env['PYTHONHASHSEED'] = str(hashseed)
+    proc = _spawn_digest_process(prop, tier, seed, first, count, env)
+    _PROBES.append(proc)
+    return proc
+
+
+def _spawn_digest_process(prop, tier, seed, first, count, env):
     return subprocess.Popen([sys.executable, os.path.join(VERIF, 'vcheck'), 'digest', prop,
                              '--tier', tier, '--seed', str(seed),
                              '--first', str(first), '--count', str(count)],
@@ -262,7 +271,14 @@ def check_main(engine, prop, argv):
     sys.stdout.flush()
 
     try:
-        rc = _check(engine, prop, tier, seed, jobs, args, t0)
+        try:
+            rc = _check(engine, prop, tier, seed, jobs, args, t0)
+        finally:
+            # never leave a determinism probe behind (it would spin forever on code that does not terminate)
+            for proc in _PROBES:
+                if proc.poll() is None:
+                    proc.kill()
+            del _PROBES[:]
     except HarnessError as e:
         print('HARNESS-ERROR property=%s %s' % (prop, e))
         rc = 2
